@@ -182,6 +182,38 @@ def doNonuniform (l : Line) : Option String := do
       let p := Part1.ofList r 0 0
       nonuniformAxis p.n p.c a b bl br))
 
+/-- n-d derived quantities: `size`, `is_uniform`, `has_isotropic_cells`, `cell_volume`, `points()`
+(C order) and `index(pt)` of every grid point. -/
+def doNd (l : Line) : Option String := do
+  let P ← l.vpart?
+  let vol := match ndCellVolume uniTolOf P with
+    | some v => showRat v
+    | none => "nan"
+  let pts := ndPoints P
+  let idx := pts.map fun v => match ndIndex P v with
+    | some i => showIntList i
+    | none => "err"
+  some (s!"ok size={ndSize P} uni={bit (ndIsUniform uniTolOf P)} iso={bit (ndIsotropic uniTolOf tolNp P)} " ++
+        s!"vol={vol} pts={showRatMat pts} idx={";".intercalate idx}")
+
+/-- The documented equivalences: the uniform partition, `nonuniform_partition` of its coordinate
+vectors with the same flags, `uniform_partition_fromgrid` of its grid with the on-boundary limits
+given explicitly. -/
+def doEquiv (l : Line) : Option String := do
+  let lo ← l.rats? "lo"
+  let hi ← l.rats? "hi"
+  let shape ← l.nats? "shape"
+  let fl ← l.get? "nob" >>= parseFlags
+  match fl.gridFlags lo.length with
+  | none => some "err"
+  | some gf =>
+    match fromIntv lo hi shape gf with
+    | none => some "err"
+    | some P =>
+      let Q := (List.zip P gf).mapM fun (p, (bl, br)) => reNonuniform p bl br
+      let R := (List.zip P gf).mapM fun (p, (bl, br)) => reFromGrid p bl br
+      some (showPart P ++ " | " ++ showRes Q ++ " | " ++ showRes R)
+
 def handle (l : Line) : Option String :=
   match l.op with
   | "props" => doProps l
@@ -195,6 +227,8 @@ def handle (l : Line) : Option String :=
   | "fromintv" => doFromIntv l
   | "fromgrid" => doFromGrid l
   | "nonuniform" => doNonuniform l
+  | "nd" => doNd l
+  | "equiv" => doEquiv l
   | _ => none
 
 def main : IO Unit := driverLoop handle
